@@ -42,12 +42,13 @@ Theorem C17_solo_is_alone :
   t_obs (c_thr (run sched (init st0 progs)) i) = solo_result zero_store p.
 Proof. exact solo_is_alone. Qed.
 
-(* ---- FAITHFUL (current code: the viral-propagation registry is a ContextVar).  For ANY number of concurrent calls whose
-        access traces never read the registry before publishing their own (every recorded trace: checked on each run), of ANY
-        length, under EVERY interleaving: each completed call read, at every registry access, exactly what it reads alone.
-        (W_reg = the parse state and the per-thread cells; reads of the remaining process-wide globals are not constrained.) *)
-Theorem C17_registry_serializable_impl :
-  forall (trs : tid -> list tag) (toks : tid -> val), (forall i, reg_wf false (trs i) = true) ->
+(* ---- FAITHFUL (current code: the viral-propagation registry and Exceptions.dataset_output are ContextVars).  For ANY number of
+        concurrent calls whose access traces never read their registry / output-dataset cell before writing it (every recorded
+        trace: checked on each run), of ANY length, under EVERY interleaving: each completed call read, at every registry access
+        and at every error construction, exactly what it reads alone.  (W_reg = the parse state and the per-thread cells; reads
+        of the remaining process-wide globals — VirtualCounter, TimePeriodConfig — are not constrained.) *)
+Theorem C17_cells_serializable_impl :
+  forall (trs : tid -> list tag) (toks : tid -> val), (forall i, cells_wf false false (trs i) = true) ->
   forall st0 sched i, let progs := fun j => prog_of_trace (gmap_impl j) (toks j) (trs j) in
   t_todo (c_thr (run sched (init st0 progs)) i) = [] ->
   wobs W_reg (t_obs (c_thr (run sched (init st0 progs)) i)) = wobs W_reg (solo_result zero_store (progs i)).
@@ -57,15 +58,19 @@ Proof.
   - intros j. apply impl_trace_confined. apply Hwf.
 Qed.
 
-(* the canonical run() / semantic_analysis / parse-only shapes satisfy that hypothesis, whatever their size *)
-Lemma rep_reg_wf n l : reg_wf true l = true -> (forall r, reg_wf true r = true -> reg_wf true (l ++ r) = true) -> forall r, reg_wf true r = true -> reg_wf true (rep n l ++ r) = true.
-Proof. intros Hl Happ. induction n; intros r Hr; simpl; [exact Hr|]. rewrite <- app_assoc. apply Happ. apply IHn. exact Hr. Qed.
+(* the canonical run() shape satisfies that hypothesis, whatever its size *)
+Lemma rep_cells_wf n l : (forall r, cells_wf true true r = true -> cells_wf true true (l ++ r) = true) ->
+  forall r, cells_wf true true r = true -> cells_wf true true (rep n l ++ r) = true.
+Proof. intros Happ. induction n; intros r Hr; simpl; [exact Hr|]. rewrite <- app_assoc. apply Happ. apply IHn. exact Hr. Qed.
 
-Theorem C17_run_shape_reads_registry_after_set : forall n k, reg_wf false (run_tags n k) = true.
+Theorem C17_run_shape_cells_wf : forall n k, cells_wf false false (run_tags n k) = true.
 Proof.
-  intros n k. unfold run_tags. cbn [app reg_wf].
-  apply rep_reg_wf; [reflexivity | intros r Hr; exact Hr |].
-  cbn [app reg_wf]. induction k; simpl; [reflexivity | exact IHk].
+  intros n k. unfold run_tags. cbn [app cells_wf].
+  destruct n as [|n].
+  - cbn [rep app cells_wf]. induction k; simpl; [reflexivity | exact IHk].
+  - cbn [rep]. unfold stmt_tags at 1. cbn [app cells_wf].
+    apply rep_cells_wf; [intros r Hr; exact Hr|].
+    cbn [app cells_wf]. induction k; simpl; [reflexivity | exact IHk].
 Qed.
 
 Definition race_found (g : gvar) (tokb : val) (pa pb : prog) : bool :=
@@ -95,9 +100,10 @@ Qed.
 (* the witness search finds NO registry race in the current skeletons (consistent with the theorem above) *)
 Definition pA : prog := prog_of_trace (gmap_impl 0) 1%Z (run_tags 1 1).
 Definition pB : prog := prog_of_trace (gmap_impl 1) 2%Z (run_tags 1 1).
-Example C17_no_registry_witness_impl :
-  race_schedule (gmap_impl 0 GRegistry) 0 1 pA pB = None /\ race_schedule GRegistry 0 1 pA pB = None.
-Proof. vm_compute. split; reflexivity. Qed.
+Example C17_no_cell_witness_impl :
+  race_schedule (gmap_impl 0 GRegistry) 0 1 pA pB = None /\ race_schedule GRegistry 0 1 pA pB = None /\
+  race_schedule (gmap_impl 0 GDsOut) 0 1 pA pB = None /\ race_schedule GDsOut 0 1 pA pB = None.
+Proof. vm_compute. repeat split; reflexivity. Qed.
 
 (* ---- REGRESSION WITNESS, behaviour BEFORE the fix (one process-wide registry): an interleaving in which both calls complete
         and call A transpiles under B's registry (reads token 2) *)
@@ -123,13 +129,16 @@ Proof.
   rewrite forallb_forall in H. specialize (H sa Ha). rewrite forallb_forall in H. exact (H sb Hb).
 Qed.
 
-(* ---- FAITHFUL, still refuted: a failing semantic_analysis (raises while statement 1 is analysed) reads the other call's
-        dataset_output (Exceptions.dataset_output is still one process-wide variable) *)
-Definition pSemErr : prog := prog_of_trace (gmap_impl 0) 1%Z [TParse; TRegSet; TDsOutSet; TVcDs; TRaise; TDsOutClear].
-Theorem C17_dataset_output_race_refuted :
-  exists sched, finished sched (two pSemErr pB) 0 = true /\ finished sched (two pSemErr pB) 1 = true /\
-                obs_of sched (two pSemErr pB) 0 <> solo_result zero_store pSemErr /\ In (GDsOut, 2%Z) (obs_of sched (two pSemErr pB) 0).
+(* ---- REGRESSION WITNESS, behaviour BEFORE the fix (one process-wide Exceptions.dataset_output): a failing semantic_analysis
+        (raises while statement 1 is analysed) reads the other call's output-dataset name *)
+Definition pSemErr_before_fix : prog := prog_of_trace gmap_before_fix 1%Z [TParse; TRegSet; TDsOutSet; TVcDs; TRaise; TDsOutClear].
+Theorem C17_dataset_output_race_before_fix_refuted :
+  exists sched, finished sched (two pSemErr_before_fix pB_before_fix) 0 = true /\ finished sched (two pSemErr_before_fix pB_before_fix) 1 = true /\
+                obs_of sched (two pSemErr_before_fix pB_before_fix) 0 <> solo_result zero_store pSemErr_before_fix /\
+                In (GDsOut, 2%Z) (obs_of sched (two pSemErr_before_fix pB_before_fix) 0).
 Proof. apply race_found_sound. vm_compute. reflexivity. Qed.
+
+Definition pSemErr : prog := prog_of_trace (gmap_impl 0) 1%Z [TParse; TRegSet; TDsOutSet; TVcDs; TRaise; TDsOutClear].
 
 (* ---- FAITHFUL, still refuted: VirtualCounter is reset only AFTER each statement, so a call's first intermediate name depends
         on what another call left in the counter: B advances the counter, A then runs from start to end and reads 1 instead of 0 *)
@@ -155,9 +164,9 @@ Theorem C17_run_skeleton_not_confinable :
   forall disc, ~ (confined disc W_all 0 pSemErr = true /\ confined disc W_all 1 pB = true).
 Proof.
   intros disc [Ha Hb].
-  destruct C17_dataset_output_race_refuted as [sched [F0 [_ [Hne _]]]].
-  apply Hne. unfold obs_of.
-  apply (confined_serializable disc (two pSemErr pB)).
+  destruct C17_virtual_counter_race_refuted as [sched [F0 [_ [Hsolo [_ Hno]]]]].
+  apply Hno. unfold obs_of.
+  rewrite (confined_serializable disc (two pSemErr pB)); [exact Hsolo | |].
   - intros i. destruct i as [|[|i]]; simpl; [exact Ha | exact Hb | reflexivity].
   - unfold finished in F0. destruct (t_todo (c_thr (run sched (init zero_store (two pSemErr pB))) 0)); [reflexivity | discriminate].
 Qed.
@@ -174,7 +183,7 @@ Proof.
   intros j. apply parse_confined.
 Qed.
 
-(* ---- SPEC (the remaining repair: counters, representation and dataset_output per thread too, each call starting from its own
+(* ---- SPEC (the remaining repair: counters and representation per thread too, each call starting from its own
         fresh registry / reset counters): ANY mix of parse-only calls and run()/semantic_analysis calls of ANY shape, in ANY
         number, is serializable under every interleaving with respect to ALL globals *)
 Definition spec_prog (kind : bool) (i : tid) (tok : val) (n k : nat) : prog :=
@@ -203,11 +212,11 @@ Print Assumptions C17_confined_serializable.
 Print Assumptions C17_confined_serializable_watched.
 Print Assumptions C17_confined_prefix.
 Print Assumptions C17_solo_is_alone.
-Print Assumptions C17_registry_serializable_impl.
-Print Assumptions C17_run_shape_reads_registry_after_set.
+Print Assumptions C17_cells_serializable_impl.
+Print Assumptions C17_run_shape_cells_wf.
 Print Assumptions C17_registry_race_before_fix_refuted.
 Print Assumptions C17_registry_race_all_shapes_le3_before_fix.
-Print Assumptions C17_dataset_output_race_refuted.
+Print Assumptions C17_dataset_output_race_before_fix_refuted.
 Print Assumptions C17_virtual_counter_race_refuted.
 Print Assumptions C17_run_skeleton_not_confinable.
 Print Assumptions C17_parse_calls_serializable_partial.
